@@ -90,6 +90,8 @@ pub struct Session {
     pub debug: Option<DebugCfg>,
     /// The simulated standard input (debugger script and/or program input); its end is EOF.
     pub stdin: Vec<u8>,
+    /// Program input typed on an interactive terminal instead (no debugger): key events.
+    pub tty_input: Option<Vec<Key2>>,
     /// Run-loop iterations allowed.
     pub fuel: u64,
     /// Idle run-loop iterations (no instruction, no command) allowed in a row.
@@ -265,7 +267,13 @@ fn thread_body(session: &Session) -> ThreadResult {
             sim.keys = keys.iter().map(|k| k.to_key()).collect();
             Some(Transport::Terminal(history.clone()))
         }
-        _ => Some(Transport::Stdin),
+        _ => match &session.tty_input {
+            Some(keys) => {
+                sim.keys = keys.iter().map(|k| k.to_key()).collect();
+                Some(Transport::Terminal(Vec::new()))
+            }
+            None => Some(Transport::Stdin),
+        },
     };
     verif::arm(sim);
 
